@@ -284,8 +284,18 @@ pub fn limit_change_case(base: usize, steps: &[usize], pre: usize, extra: usize,
             Err(_) if l > 1024 => return Ok(calls),
             Err(v) => return Err(v),
         }
-        // requests above the library's maximum are clamped to it (NETCODE_MAX_CLIENTS = 1024)
-        let l = l.min(1024);
+        // a request above the library's maximum (NETCODE_MAX_CLIENTS = 1024) is outside the contract: the library
+        // clamps it; a variant that refuses it and keeps the old limit is just as good. Whatever max_clients() says
+        // afterwards is the limit the rest of the case holds the server to, as long as it is a legal one.
+        let l = if l > 1024 {
+            let now = server.max_clients();
+            if now > 1024 {
+                return Err(bad("max_clients-getter", format!("max_clients() = {} after set_max_clients({}), the maximum is 1024", now, l)));
+            }
+            now
+        } else {
+            l
+        };
         if l < limit {
             lowered = true;
         }
